@@ -355,6 +355,15 @@ class GaussSystem:
         t = model["t"]
         if t == "approx":
             return True
+        # the properties are stated for condition numbers <= 1e4: states outside that domain (e.g. three linear
+        # sums in a row followed by a rank-one product) are neither judged nor expanded, and are counted
+        mats = model["Lam"] if t == "measure" else (model["Sy"] if t == "cond" else None)
+        if mats is not None and mats.size:
+            with np.errstate(all="ignore"):
+                c = max(float(np.linalg.cond(m)) for m in mats)
+            if not (c <= 1e4):
+                ctx.count("out_of_domain_states")
+                return False
         if "model" in self.checks:
             ok &= self._check_model(ctx, obj, model, facts)
         if "caches" in self.checks:
